@@ -240,6 +240,9 @@ contract(SOL + "irrigation.py", "irrigation",
              ("C13.irr_interval_amount", "implies(growing_season and IrrMngt_IrrMethod == 2, "
               "Irr == ite((NewCond_DAP - 1) % IrrMngt_IrrInterval == 0, " + _CAP.format(x="min(IrrMngt_MaxIrr, max(0, Depletion) * (2 - IrrMngt_AppEff / 100))") + ", 0))"),
              ("C13.irr_taw_positive", "implies(growing_season, TAW > 0)"),
+             # C20: a strategy switched on at a neutral value applies nothing (daily / seasonal maximum 0, constant depth 0, nothing scheduled today)
+             ("C20.irr_neutral_values_give_none", "implies(IrrMngt_MaxIrr == 0 or (IrrMngt_MaxIrrSeason == 0 and NewCond_IrrCum == 0) or "
+              "(IrrMngt_IrrMethod == 5 and IrrMngt_depth == 0) or (IrrMngt_IrrMethod == 3 and IrrMngt_Schedule[NewCond_TimeStepCounter] == 0), Irr == 0 and IrrCum == ite(growing_season, NewCond_IrrCum, 0))"),
          ],
          options=dict(reads_only_if={"IrrMngt_SMT": "IrrMngt_IrrMethod == 1", "IrrMngt_IrrInterval": "IrrMngt_IrrMethod == 2",
                                      "IrrMngt_Schedule": "IrrMngt_IrrMethod == 3", "IrrMngt_depth": "IrrMngt_IrrMethod == 5",
@@ -494,7 +497,19 @@ contract(SOL + "soil_evaporation.py", "soil_evaporation",
          },
          assigns=["NewCond_th[*]"],
          options=dict(merge_limit=None, reads_only_if={"FieldMngt_fMulch": "FieldMngt_Mulches", "FieldMngt_MulchPct": "FieldMngt_Mulches",
-                                                       "IrrMngt_WetSurf": "Irr > 0 and IrrMngt_IrrMethod != 4"}),
+                                                       "IrrMngt_WetSurf": "Irr > 0 and IrrMngt_IrrMethod != 4"},
+                      # C20: at the point where the two adjusted potentials are combined (the only consumers of the mulch / wetted-surface parameters),
+                      # neutral settings give the unadjusted potential; nothing is forgotten at this cut
+                      cuts=[dict(before="EsPot = min(EsPotIrr, EsPotMul)",
+                                 **{"assert": ["implies(not FieldMngt_Mulches or FieldMngt_MulchPct == 0 or FieldMngt_fMulch == 0, EsPotMul == EsPot)",
+                                               "implies(not (Irr > 0 and IrrMngt_IrrMethod != 4) or IrrMngt_WetSurf == 100, EsPotIrr == EsPot)",
+                                               "EsPotMul <= EsPot and EsPotIrr <= EsPot"]},
+                                 havoc=[]),
+                            # ... and the combined potential is the other adjustment's value when one of them is neutral
+                            dict(before="EsAct = 0",
+                                 **{"assert": ["implies(not FieldMngt_Mulches or FieldMngt_MulchPct == 0 or FieldMngt_fMulch == 0, EsPot == EsPotIrr)",
+                                               "implies(not (Irr > 0 and IrrMngt_IrrMethod != 4) or IrrMngt_WetSurf == 100, EsPot == EsPotMul)"]},
+                                 havoc=[])]),
          props=("C01", "C03", "C04", "C12", "C16", "C20"))
 
 # ----------------------------------------------------------------------------- transpiration
